@@ -42,7 +42,8 @@ class Finding:
         d = self.detail
         if self.rule == "R-ATOM" and isinstance(d, dict) and d.get("entry") and isinstance(d.get("write"), dict) \
                 and isinstance(d.get("rejection"), dict):
-            return f"R-ATOM|{d['entry']}|{norm_text(d['write'].get('text', ''))} >> {norm_text(d['rejection'].get('text', ''))}"
+            w, r = d["write"], d["rejection"]
+            return f"R-ATOM|{d['entry']}|{norm_text(w.get('key_text', w.get('text', '')))} >> {norm_text(r.get('key_text', r.get('text', '')))}"
         return None
 
     def to_json(self) -> dict:
